@@ -1404,6 +1404,14 @@ let () =
                 say "A-FAIL %s: a panicking Into conversion changed the map: before [%s] after [%s]" where
                   (String.concat "," (sorted_kvs !spec)) (String.concat "," (sorted_kvs contents));
               spec := contents
+            | Some OutUnwind when opname = "raw_rename" ->
+              (* unwound (a destructor of a temporary panicked): the first key may be gone, the second
+                 pair may already be stored *)
+              let op_u = OpEntryInsert (zs (List.nth opws 3), zs (List.nth opws 4), zs (List.nth opws 5)) in
+              if not (unwind_accepts !spec op_u contents) then
+                say "A-FAIL %s: contents after unwinding are not explainable: spec=[%s] impl=[%s]" where
+                  (String.concat "," (sorted_kvs !spec)) (String.concat "," (sorted_kvs contents));
+              spec := contents
             | Some OutUnwind ->
               (* from_iter: the harness installs the new map and then drops the old one: a panic inside the
                  construction leaves the old map, a panic while dropping the OLD map leaves the new one *)
